@@ -1,4 +1,5 @@
 import MdsVerif.Model.Cursor
+import MdsVerif.Gen.Omap
 /-!
 # Model of `omap.Map` and `omap.Iter` (omap/omap.go)
 
@@ -18,7 +19,9 @@ Sharing between copies of a `Map` (they hold the same tree pointer) is aliasing 
 visible in this value model; the driver/harness stream C04 ties it by running copies against
 ONE model state.
 
-The balance factor `250` of `NewFunc` is repeated here by hand.
+The balance factor of `NewFunc` is `Gen.Omap.balance`, regenerated from omap.go by `extract/omap.go` on every
+run together with the table of nil-tree guards and delegated tree/cursor methods that this file mirrors;
+`Props.C04.C04_current` pins both.
 -/
 namespace MdsVerif.Model.Omap
 open MdsVerif.Model.Stree MdsVerif.Model
@@ -30,8 +33,8 @@ def kvCmp (cmp : K → K → Ordering) (a b : K × V) : Ordering := cmp a.1 b.1
 
 abbrev Map (K V : Type) := Option (T (K × V))
 
-/-- `NewFunc(cf)`: `stree.New(250, kv{}.Compare(cf))` -/
-def newFunc : Map K V := some (T.empty 250)
+/-- `NewFunc(cf)`: `stree.New(250, kv{}.Compare(cf))` — the balance factor is the regenerated one -/
+def newFunc : Map K V := some (T.empty Gen.Omap.balance)
 
 /-- the zero Map -/
 def zero : Map K V := none
